@@ -289,13 +289,19 @@ def invTuple (outer : Path) (p : Path) (value : Val) (inv : Val) : Except Err Va
     | last :: initRev => updateIn (mergeMultiInto [(last, value)]) inv initRev.reverse
     | [] => assocPath inv inner value
 
-/-- the glob branch with a tuple path: one child -/
+/-- the glob branch with a tuple path, one child (`multi_updates=True`): another port may point at
+the same child, so the child's update is merged with `deep_merge_multi_update`, and a non-dictionary
+child update goes through `update_in(inverse, inner[:-1], …{inner[-1]: child_update})` like a leaf
+port (repair of CF-A, commit 9f366a6) -/
 def invGlobChild (outer p : Path) (child : String) (childUpdate : Val) (inv : Val) :
     Except Err Val :=
   let inner := normalize (outer ++ p ++ [child])
   match childUpdate with
-  | .dict ckvs => updateIn (mergeInto ckvs) inv inner
-  | _ => assocPath inv inner childUpdate
+  | .dict ckvs => updateIn (mergeMultiInto ckvs) inv inner
+  | _ =>
+    match inner.reverse with
+    | last :: initRev => updateIn (mergeMultiInto [(last, childUpdate)]) inv initRev.reverse
+    | [] => assocPath inv inner childUpdate
 
 /-- `for child, child_update in update.items(): inverse = f(child)(child_update)(inverse)` -/
 def foldChildren (f : String → Val → Val → Except Err Val) : KVs → Val → Except Err Val
